@@ -1,7 +1,7 @@
 """Worker for C11: replay a TREE of generate-histories with real `generate_client` calls into sandbox projects.
 
 Job (stdin: JSON list):
-  {"id", "root": dir, "depth": 0..3, "layout": "sib"|"api", "hists": [[[client, [codes], force], ...], ...],
+  {"id", "root": dir, "depth": 0..4, "layout": "sib"|"api", "hists": [[[client, [codes], force], ...], ...],
    "spawn_every": N}
 `hists` are the nodes (histories) of one sub-tree of the history tree; every proper prefix needed to reach them
 is executed too (and reported).  The tree is walked depth first; the project directory of a node is copied
@@ -37,7 +37,7 @@ from typing import Any
 
 PY = os.environ.get("VERIF_PY", "/venv/bin/python")
 
-PREFIX = {1: "", 2: "a.", 3: "a.b."}
+PREFIX = {1: "", 2: "a.", 3: "a.b.", 4: "a.b.c."}
 
 OPS = [("items", "get", "/items", "list_items"), ("orders", "post", "/orders", "create_order")]
 
